@@ -108,8 +108,30 @@ func runC15(c *Ctx) {
 			}
 		}
 		c.Ob("C15-R2", "call sites of the internal add functions found", "", nl >= 7, fmt.Sprintf("%d", nl))
+		// affordability is judged with Transaction.Cost: it is gasPrice*gasLimit + value in arbitrary precision on one
+		// straight path (a machine-word fast path can wrap), and the managed pending nonce really is the nonce written
+		cost := c.Fn("core/types:(*Transaction).Cost")
+		muls, addsC := callSites(cost, `^Int\.Mul$`), callSites(cost, `^Int\.Add$`)
+		okCost := len(cost.Blocks) == 1 && len(muls) == 1 && len(addsC) == 1
+		dCost := fmt.Sprintf("%d basic blocks, %d Mul, %d Add", len(cost.Blocks), len(muls), len(addsC))
+		if okCost {
+			m, a := muls[0].Common().Args, addsC[0].Common().Args
+			okCost = c.termOf(cost, m[1]) == "Transaction#0.data.Price" && strings.Contains(c.termOf(cost, m[2]), ".SetUint64(Transaction#0.data.GasLimit)") &&
+				c.termOf(cost, a[2]) == "Transaction#0.data.Amount"
+			dCost = "Mul(" + c.termOf(cost, m[1]) + ", " + c.termOf(cost, m[2]) + "); Add(_, " + c.termOf(cost, a[2]) + ")"
+		}
+		c.Ob("C15-R2", "Transaction.Cost = Price*GasLimit + Amount in big integers, without a narrower fast path", c.FnPos(cost), okCost, dCost)
+		msn := c.Fn("core/state:(*ManagedState).SetNonce")
+		fms := c.Facts(msn)
+		var allRet []*pstate
+		for _, r := range fms.AllReturns() {
+			allRet = append(allRet, r.State)
+		}
+		c.mustStates("C15-R2", msn, "return", allRet, []LitReq{
+			{Name: "ManagedState.SetNonce writes the nonce into the state object on every path (the tracked window restarts from it)", Re: `^called:ManagedState#0\.StateDB\.GetOrNewStateObject\(Address#0\)\.SetNonce\(uint64#0\)$`},
+		})
 	})
-	c.Min("C15-R2", 26)
+	c.Min("C15-R2", 28)
 
 	c.Rule("C15-R3", "every slice of removed transactions is consumed (unindexed or re-queued)", func() {
 		tp := c.Pkg("core")
@@ -187,8 +209,17 @@ func runC15(c *Ctx) {
 		if len(removed) < 2 {
 			c.Ob("C15-R3", "removeTx has the pending-removal paths (list emptied / not emptied)", c.FnPos(rm), false, fmt.Sprintf("%d", len(removed)))
 		}
+		// the followers invalidated by the removal are moved to the queue on every such path - also when the removed
+		// transaction was the first of the list and the list became empty (finding F12)
+		c.mustStates("C15-R3", rm, "return after removing a pending transaction", removed, []LitReq{
+			{Name: "removeTx re-queues every transaction invalidated by the removal, whether or not the pending list became empty",
+				Re: `^\(phi:rangeindex(~\d+)? \+ 1\) >= len\(TxPool#0\.pending\[.*\]\.Remove\(.*\)#1\)$`},
+		})
+		c.MustLoopBack("C15-R3", rm, `^TxPool\.enqueueTx$`, []LitReq{
+			{Name: "each invalidated follower is enqueued", Re: `^call:TxPool\.enqueueTx$`},
+		})
 	})
-	c.Min("C15-R3", 11)
+	c.Min("C15-R3", 13)
 
 	c.Rule("C15-R4", "reset pipeline: state first, then demote, then promote; reorg re-injection is TxDifference(discarded, included) with a symmetric depth limit", func() {
 		rs := c.Fn("core:(*TxPool).reset")
